@@ -31,11 +31,12 @@ import re
 
 from harness import lib_c03 as L
 from harness import lib_c03x as X
+from harness import lib_c03y as Y
 from harness.core import close
 
 PID = 'C03'
 TITLE = 'Results do not depend on the execution strategy'
-LEAN_MODULES = ['MlModel.Properties.C03', 'MlModel.Witness.C03']
+LEAN_MODULES = ['MlModel.Properties.C03', 'MlModel.Properties.C03Obs', 'MlModel.Witness.C03', 'MlModel.Witness.C03Obs']
 TRUSTED = [
     'threads are modelled as "any split of the input among producers, any arrival order" (Stage.Exec); the real '
     'ThreadPoolExecutor / GIL scheduling is sampled with real OS threads (num_threads 1,2,3,8), not modelled',
@@ -298,14 +299,14 @@ def gen_cases(ctx):
       yield case
   def fam_counted(it):
     for case in it:
-      {'sizes': X.sz_counts, 'sliced': X.sl_counts, 'pool': X.pool_counts}[case['fam']](ctx, case)
+      {'sizes': X.sz_counts, 'sliced': X.sl_counts, 'pool': X.pool_counts, 'obs': Y.ob_counts}[case['fam']](ctx, case)
       yield case
   corpus = ctx.corpus()
   yield from counted(c for c in corpus if not c.get('fam'))
   yield from fam_counted(c for c in corpus if c.get('fam'))
   yield from counted(gen_directed(ctx))
   # the families are dealt between the random cases (long streams must not sit in one chunk of the pool)
-  fams = X.gen_sliced(ctx) + X.gen_sizes(ctx)
+  fams = X.gen_sliced(ctx) + X.gen_sizes(ctx) + Y.gen_obs(ctx)
   ctx.rng.shuffle(fams)
   fams = X.gen_pool(ctx) + fams          # the worker-pool case first: its process starts early
   fams = iter(fam_counted(fams))
@@ -328,6 +329,7 @@ def extra(ctx):
           'merge_states': ['list/default', 'gen/default', 'iter/default', 'gen+strict/default', 'gen/aggregate']}
   X.deque_selfcheck(ctx)
   need.update(X.SL_REQUIRED)
+  need.update(Y.ob_required())      # generator-side classes: they do not depend on the tree under test
   need['sizes:deque-selfcheck'] = ['bounded cache smaller than a refill']
   need['sizes:longer-than-every-bound'] = ['q_iter', 'q_batch', 'interleaved', 'threads']
   need['sizes:strategy'] = ['q_iter', 'q_batch', 'interleaved', 'threads', 'q_iter:bounded', 'interleaved:bounded']
@@ -353,7 +355,7 @@ def run_fam(case):
   if case['fam'] == 'pool':
     from harness import lib_c16x
     return lib_c16x.run(case['items'], timeout=TIMEOUT)
-  o = L.child().run(case, case['strat'], TIMEOUT if _HANGS == 0 else min(TIMEOUT, 5.0))
+  o = L.child().run(case, case['strats'] if case['fam'] == 'obs' else case['strat'], TIMEOUT if _HANGS == 0 else min(TIMEOUT, 5.0))
   if o.get('hang'):
     _HANGS += 1
   return o
@@ -470,6 +472,8 @@ def failures(case, obs):
 def fam_oracle(case, o):
   if case['fam'] == 'pool':
     return X.pool_oracle(case, o)
+  if case['fam'] == 'obs':
+    return Y.ob_oracle(case, o)
   if o.get('err') == 'ChildDied':
     return f"[{case['fam']}] the process running the strategy died"
   return X.sz_oracle(case, o) if case['fam'] == 'sizes' else X.sl_oracle(case, o)
@@ -503,6 +507,8 @@ def finding(case, what):
 def fam_nontrivial(case, o):
   if case['fam'] == 'pool':
     return any((x.get('merged') or {}).get('err') is None and len((x.get('merged') or {}).get('result', [])) >= 3 for x in o)
+  if case['fam'] == 'obs':
+    return Y.ob_nontrivial(case, o)
   if case['fam'] == 'sizes':
     big = max(X.constants() or [0])
     ob = o.get('obs') or {}
@@ -535,6 +541,8 @@ def model_requests(case):
     return X.sl_model_requests(case)
   if case.get('fam') == 'pool':
     return X.pool_model_requests(case)
+  if case.get('fam') == 'obs':
+    return Y.ob_model_requests(case)
   width = 2 if case['kind'] == 'dict' else 1
   by_cuts = {}
   for st in case['strategies']:
@@ -608,6 +616,8 @@ def compare(impl_obs, mobs):
   if isinstance(mobs, dict) and mobs.get('fam'):
     if mobs['fam'] == 'pool':
       return X.pool_compare(mobs['case'], impl_obs, mobs['resps'])
+    if mobs['fam'] == 'obs':
+      return Y.ob_compare(mobs['case'], impl_obs, mobs['resps'][0])
     if impl_obs.get('err') == 'ChildDied':
       return None
     if mobs['fam'] == 'sizes':
@@ -646,7 +656,8 @@ class _RngCtx:
 
 def neighbours(case, rng):
   if case.get('fam'):
-    yield from (X.gen_sizes(_RngCtx(rng)) if case['fam'] == 'sizes' else X.gen_sliced(_RngCtx(rng)))
+    yield from (X.gen_sizes(_RngCtx(rng)) if case['fam'] == 'sizes' else
+                Y.gen_obs(_RngCtx(rng)) if case['fam'] == 'obs' else X.gen_sliced(_RngCtx(rng)))
     return
   # a disagreement in the grammar family may have its failing input in a round-7 family
   yield from X.gen_sliced(_RngCtx(rng))[:40]
@@ -672,6 +683,8 @@ def shrink(case, fails0):
 
 def _shrink_fam(case, fails0):
   cur = json.loads(json.dumps(case))
+  if case['fam'] == 'obs':
+    return Y.ob_shrink(cur, fails0)
   if case['fam'] == 'pool':
     for item in cur['items']:              # one failing item is enough
       c = dict(fam='pool', items=[item])
